@@ -51,7 +51,7 @@ ASSUMPTIONS = [
     "judged through the mode spectra of the data itself (first mode exactly, later modes of a sequential run approximately); "
     "cases where either run's ranks differ are labelled and judged only on the error bound free clauses",
     "cp_apr: when a pair disagrees, each presentation is rerun ten times with the guess perturbed by 1e-13..1e-11 relative; if "
-    "that alone moves a result by more than the relation tolerance 1e-7 the instance is numerically unstable for the algorithm (stalled line "
+    "that alone moves a result by more than the relation tolerance 1e-7 (or by more than half of the deviation under judgement) the instance is numerically unstable for the algorithm (stalled line "
     "search -> division by a ~1e-20 curvature product) and is labelled, not judged",
     "cp_apr pqnr runs that raise the known 'L-BFGS first iterate is bad' assertion (C11 finding) are labelled and not judged",
     "tucker_als problems: feasible rank vectors and noisy data (see C10) so that the leading subspaces are well defined",
@@ -583,7 +583,10 @@ def _apr_pair(ctx, ra, rb, case, tag, rerun, diagnose=None):
             if not (isinstance(rp, tuple) and len(rp) == 3 and isinstance(rp[0], ttb.ktensor)):
                 continue
             DP = ref.den(rp[0])
-            if DP.shape != base.shape or not _norm(DP - base) <= REL * s:
+            # unstable: the perturbation alone moves the result by more than the tolerance, or by more than half of the
+            # deviation under judgement (a flipped branch -- trust-region ratio, converged-row test -- whose effect is of
+            # the size of that deviation: observed 9.5e-8 against a deviation of 1.3e-7)
+            if DP.shape != base.shape or not _norm(DP - base) <= min(REL * s, 0.5 * d):
                 ctx.label("unstable-instance-not-judged")
                 ctx.nt = False
                 return
